@@ -41,7 +41,7 @@ RULE = ('plan = client operation (21) x KMIP version (6) x scripted response '
         'a non-default payload or a failure and the transport plan was not '
         '"whole". Distinct = (operation, version, response digest, '
         'transport kind).')
-PROBES = ['prior_call_with_all_optional_fields', 'success_returned', 'failure_raised', 'all_cut_offsets',
+PROBES = ['version_switched_on_the_same_client', 'prior_call_with_all_optional_fields', 'success_returned', 'failure_raised', 'all_cut_offsets',
           'all_split_points', 'reset', 'timeout', 'trailing_bytes',
           'request_accepted_by_server_decoder', 'non_ascii_message',
           'empty_message', 'get_object_roundtrip']
@@ -626,6 +626,9 @@ def generate(rng, tier, index):
         # carried every optional field (client-side state must not carry
         # over into the call under test)
         plan['prior'] = gen_response(r, op, tuple(ver), rich=True)
+        if r.random() < 0.5:
+            # ... made under another KMIP version on the same client object
+            plan['prior_ver'] = list(r.choice(gen.VERSIONS))
     if ok:
         plan['payload'] = gen_response(r, op, tuple(ver))
     else:
@@ -656,22 +659,43 @@ def generate(rng, tier, index):
     return plan
 
 
-def call(plan, raw, sock_cfg):
+def call(plan, raw, sock_cfg, prior=None):
     """One client call against a responder returning `raw`. Returns
     ('ok', projected) | ('raise', class, (status, reason, message)|None)."""
     captured = []
+    cur = [raw]
 
     def responder(frame):
-        captured.append(frame)
-        return raw + sock_cfg.get('trailing', b'')
+        captured.append((frame, cur_ver[0]))
+        return cur[0] + sock_cfg.get('trailing', b'')
     ver = tuple(plan['ver'])
-    c, sock = simclient.make_client(responder, ver)
+    cur_ver = [ver]
+    first_ver = ver
+    if prior is not None:
+        first_ver = tuple(prior[1])
+    c, sock = simclient.make_client(responder, first_ver)
+    if prior is not None:
+        # an earlier call on the SAME client object (possibly under another
+        # KMIP version, switched through the public setter afterwards):
+        # nothing of it may carry over into the call under test
+        cur[0] = prior[0]
+        cur_ver[0] = first_ver
+        try:
+            invoke(c, plan['op'], first_ver, dict(plan['args']))
+        except Exception:
+            pass
+        if first_ver != ver:
+            c.kmip_version = simclient.kmip_version(ver)
+        cur[0] = raw
+        cur_ver[0] = ver
+        sock.inbuf = bytearray()
     if sock_cfg.get('chunks'):
         sock.chunks = list(sock_cfg['chunks'])
     if sock_cfg.get('cut') is not None:
         sock.cut_at = sock_cfg['cut']
     if sock_cfg.get('fault'):
         sock.fault_recv = sock_cfg['fault']
+        sock.delivered = 0
     args = dict(plan['args'])
     try:
         res = invoke(c, plan['op'], ver, args)
@@ -744,25 +768,40 @@ def execute(plan):
 
     tr = plan['transport']
     k = tr['kind']
+    prior = None
     if plan.get('prior') is not None:
         probes['prior_call_with_all_optional_fields'] += 1
-        call(plan, build_response(op, ver, True, plan['prior'], None), {})
+        pv = tuple(plan.get('prior_ver') or ver)
+        if pv != ver:
+            probes['version_switched_on_the_same_client'] += 1
+        prior = (build_response(op, pv, True, plan['prior'], None), pv)
         evals += 1
-    base, captured = call(plan, raw, {})
+    base, captured = call(plan, raw, {}, prior)
     evals += 1
     judge(base, 'whole')
-    # (3) the request the client emitted
-    for f in captured:
+    # (3) the requests the client emitted
+    for f, fver in captured:
         try:
-            t.parse(f)
+            tree = t.parse(f)
         except t.TTLVError as e:
             flag('client-emitted-malformed-ttlv', why=str(e)[:80])
             continue
+        hv = None
+        try:
+            pvn = tree.child(TAG['REQUEST_HEADER']).child(
+                TAG['PROTOCOL_VERSION'])
+            hv = (pvn.get(TAG['PROTOCOL_VERSION_MAJOR']),
+                  pvn.get(TAG['PROTOCOL_VERSION_MINOR']))
+        except Exception:
+            pass
+        if hv != tuple(fver):
+            flag('client-request-header-names-another-version', why=None,
+                 header=hv, client_version=fver)
         if decodable(f):
             probes['request_accepted_by_server_decoder'] += 1
         else:
             flag('client-request-not-decodable-by-server', why=None,
-                 version=ver, args=plan['args'])
+                 version=fver, args=plan['args'])
     if op == 'get' and plan['ok'] and base[0] == 'ok':
         probes['get_object_roundtrip'] += 1
     if k == 'split':
